@@ -60,7 +60,8 @@ pub enum Op {
 
 fn gen_cfg(_prop: &str, _tier: Tier, run_seed: u64) -> Value {
     let mut r = Rng::sub(run_seed, "cfg");
-    json!({ "disk": r.chance(1, 2), "big": r.chance(1, 12) })
+    // big: the longest LZ11 length form; huge: a payload of 16 MiB and more (extended length header)
+    json!({ "disk": r.chance(1, 2), "big": r.chance(1, 12), "huge": r.chance(1, 150) })
 }
 
 const ENTRIES: [&str; 4] = ["lz10", "lz13", "cf10", "cf13"];
@@ -452,7 +453,28 @@ fn run(cfg: &Value, ctx: &mut RunCtx) -> Step<()> {
     }
     // plan: a few peer-written files, each read intact and then under every fault kind
     let mut planned: Vec<Op> = Vec::new();
-    if !ctx.is_replay() {
+    if !ctx.is_replay() && cfg["huge"].as_bool().unwrap_or(false) {
+        // a peer-written stream of >= 16 MiB: a few literals, then maximal copies
+        let mut r = Rng::sub(ctx.run_seed, "ops");
+        let mut t: Vec<Token> = (0..r.range(1, 40)).map(|_| Token::Lit(r.next() as u8)).collect();
+        let mut n = t.len();
+        let target = (1usize << 24) + r.below(200_000);
+        while n < target {
+            // (not written as `if d >= 65808 { 65808 } else { d.max(3) }`: rustc 1.95 / LLVM 22 in this
+            // sandbox miscompiles that clamp at every opt-level >= 1 and returns d)
+            let len = (target - n).min(65808).max(3);
+            t.push(Token::Ref(len, r.range(1, n.min(4096))));
+            n += len;
+        }
+        let inner = lz::encode_tokens(&t, true, r.next() as u8);
+        let (form, bytes) = if r.chance(1, 2) { ("lz13".to_string(), lz::wrap_lz13(&inner, 9)) } else { ("lz11".to_string(), inner) };
+        planned.push(Op::Base { form, bytes });
+        planned.push(Op::ZeroFault);
+        // a torn tail and a garbage tail of the big file (full enumeration would copy terabytes)
+        planned.push(Op::Append { tail: vec![0x5A; 3] });
+        planned.reverse();
+        ctx.probe("lz11_extended_header_16mib_payload");
+    } else if !ctx.is_replay() {
         let mut r = Rng::sub(ctx.run_seed, "ops");
         if r.chance(1, 8) {
             planned.push(Op::Tiny);
